@@ -18,6 +18,8 @@ CONSTANTS
   NestSet <- NestAll
   TwoRuns = FALSE
   OpsB = 0
+  EqualLayers = FALSE
+  UseOrRoot = FALSE
 INVARIANT Visible
 INVARIANT Shadow
 INVARIANT DeleteLocal
